@@ -203,6 +203,29 @@ class KVStore(Entity):
             self._insertion_order.append(key)
         self._data[key] = value
 
+    def increment(self, key: str, amount: int = 1) -> Generator[float, None, int]:
+        """Atomically add ``amount`` to the integer stored under ``key``.
+
+        A missing key counts as 0. The read-modify-write happens at a single
+        simulated instant (after the write latency), so concurrent callers
+        never lose an update (like Redis INCRBY).
+
+        Args:
+            key: The key of the counter.
+            amount: The amount to add.
+
+        Yields:
+            Write latency delay.
+
+        Returns:
+            The value after the increment.
+        """
+        yield self._write_latency
+        self._writes += 1
+        value = self._data.get(key, 0) + amount
+        self.put_sync(key, value)
+        return value
+
     def delete(self, key: str) -> Generator[float, None, bool]:
         """Delete a key.
 
